@@ -21,7 +21,7 @@ var (
 type vPayload []byte
 
 func (v vPayload) Marshal(b *bytes.Buffer) { b.Write(v) }
-func (v vPayload) Bytes() []byte            { return v }
+func (v vPayload) Bytes() []byte           { return v }
 
 // reference DER helpers (X.690 minimal definite lengths)
 func vDER(tag byte, content []byte) []byte {
